@@ -20,7 +20,6 @@ import requests
 from overrides import overrides
 
 from req_compile.containers import RequirementContainer
-from req_compile.errors import MetadataError
 from req_compile.metadata import extract_metadata
 from req_compile.repos.repository import Candidate, Repository, filename_to_candidate
 
@@ -323,7 +322,8 @@ class PyPIRepository(Repository):
                 _, _, hash_pair = resource.partition("#")
                 dist_info.hash = hash_pair.replace("=", ":")
             return dist_info, cached
-        except MetadataError:
+        except Exception:  # pylint: disable=broad-except
+            # Whatever made a fresh download unusable, do not leave it in the wheeldir.
             if not cached and filename is not None:
                 try:
                     os.remove(filename)
